@@ -7,16 +7,16 @@ CLAIMED = {
  "C01": ("exploration", "§6 C01", "seeded search over single-client programs x knob vectors x comparers x schedules of the background goroutines; every Get/Has and every post-reopen full scan is compared with the ordered-map model M-map; SetReadOnly mid-history; returned values must not change later"),
  "C02": ("exploration", "§6 C02", "iterators on DB/snapshot/transaction with arbitrary ranges and movement scripts checked step by step against the reference cursor M-cursor, over layouts produced by seeded histories and schedules"),
  "C03": ("exploration", "§6 C03", "up to 8 live snapshots and long-lived iterators read after later writes, flushes, compactions and >5 min of simulated time; each read equals the model prefix frozen at creation; transactions, whose iterators may outlive them"),
- "C04": ("fault_enumeration", "§6 C04", "crash points (k-th storage operation of a kind/file type, before/after/inside) x durable-image variants per file x programs; after each crash the DB must reopen and its contents equal apply(T) for a legal subset T containing all sync-acknowledged batches and committed transactions; control run without crashes attributes mismatches; concurrent writers + crash (Sync-acknowledged writes survive); thorough enumerates every storage event index of sampled programs as the crash point; keys of several KiB (records spanning 32 KiB blocks) with crashes at manifest writes"),
+ "C04": ("fault_enumeration", "§6 C04", "crash points (k-th storage operation of a kind/file type, before/after/inside) x durable-image variants per file x programs; after each crash the DB must reopen and its contents equal apply(T) for a legal subset T containing all sync-acknowledged batches and committed transactions; control run without crashes attributes mismatches; concurrent writers + crash (Sync-acknowledged writes survive); thorough enumerates every storage event index of sampled programs as the crash point; keys of several KiB (records spanning 32 KiB blocks) with crashes at manifest writes; failed commits (manifest sync failures) before the crash"),
  "C06": ("exploration", "§6 C06", "LSM shape invariants evaluated on every version edit decoded from manifest bytes at the storage seam by an independent decoder, over seeded histories, comparers and tiny size knobs; also after Recover (all tables in level 0 by file number)"),
- "C07": ("exploration", "§6 C07", "no removal of live tables / no read of removed tables / storage = live set at scheduler-level quiescence (after reference-cache expiry) under long-lived iterators, discarded transactions and reopen; transaction iterators outliving their transaction; >256 versions behind a pinned iterator; failed flushes/compactions then heal+settle; space-given-back bound over overwrite+compact rounds; failed version commits (manifest faults) then heal + settle; SizeOf/Stats calls"),
+ "C07": ("exploration", "§6 C07", "no removal of live tables / no read of removed tables / storage = live set at scheduler-level quiescence (after reference-cache expiry) under long-lived iterators, discarded transactions and reopen; transaction iterators outliving their transaction; >256 versions behind a pinned iterator; failed flushes/compactions then heal+settle; space-given-back bound over overwrite+compact rounds; failed version commits (manifest faults) then heal + settle; SizeOf/Stats calls; one operation on the real file storage (legacy .sst names, rewrite + compact, directory versus manifest)"),
  "C08": ("fault_enumeration", "§6 C08", "injected storage failures (kind x file type x position x window) during seeded programs, then continued use and reopen; model with indeterminate failed batches; control run without faults attributes mismatches; concurrent writers under faults incl. Close racing a retried commit; bit rot at rest; thorough enumerates every storage event index as the single-failure position; deep-tombstone variant (failed and retried compactions of deletion markers); discard under remove faults"),
  "C09": ("exploration", "§6 C09", "bounded liveness: after the finite fault plan is exhausted every call returns within 600 s of idle simulated time; hang reports name the blocked call and site; concurrent clients under faults; SetReadOnly mid-history with every write entry point x Sync/NoWriteMerge; thorough enumerates single-failure positions; Close racing a retried commit; bit rot then writes/compactions (persistent error state); SetReadOnly among concurrent writers"),
- "C11": ("exploration", "§6 C11", "transaction bodies of any size, reads through the transaction against model-at-open + own writes, commit/discard/reopen, residue check at quiescence; Close racing a commit retried under manifest faults; thorough enumerates crash/failure positions; plain concurrent programs with snapshot re-reads"),
+ "C11": ("exploration", "§6 C11", "transaction bodies of any size, reads through the transaction against model-at-open + own writes, commit/discard/reopen, residue check at quiescence; Close racing a commit retried under manifest faults; thorough enumerates crash/failure positions; plain concurrent programs with snapshot re-reads; manifest failures under transaction-routed large batches"),
  "C16": ("exploration", "§6 C16", "programs under varying bloom filter settings incl. policy changes across reopen; results vs model, mismatches confirmed against a filter-free control run; a second filter policy with another name and encoding; snapshot reads of older versions; Recover under a filter; filter-block damage without block checksums"),
  "C20": ("exploration", "§6 C20", "client scribbles over every argument buffer and returned Get value; results vs model, mismatches confirmed against a non-scribbling control run; iterator Key/Value stability; concurrent merged writers: the leader's batch is unchanged; returned values must not change later; batch reused right after Write must not reach the DB; empty values and in-place growth of returned values"),
- "C05": ("exploration", "§6 C05", "2..5 simulated clients under the seeded scheduler; recorded histories checked for linearizability with porcupine against a sequential map, plus batch-atomicity and per-client monotonicity pre-checks; transaction iterators among concurrent writers; snapshots re-read later"),
- "C10": ("exploration", "§6 C10", "2..6 concurrent writers with merge on/off and oversized batches; journal bytes at the storage seam give the write groups; exactly-once acknowledgement, disjoint sequence ranges, linearizability with groups atomic, bounded liveness; logged at acknowledgement, synced at Sync acknowledgement, caller's batch unchanged; SetReadOnly among the writers; journal failures among the writers"),
+ "C05": ("exploration", "§6 C05", "2..5 simulated clients under the seeded scheduler; recorded histories checked for linearizability with porcupine against a sequential map, plus batch-atomicity and per-client monotonicity pre-checks; transaction iterators among concurrent writers; snapshots re-read later; Has among the reads"),
+ "C10": ("exploration", "§6 C10", "2..6 concurrent writers with merge on/off and oversized batches; journal bytes at the storage seam give the write groups; exactly-once acknowledgement, disjoint sequence ranges, linearizability with groups atomic, bounded liveness; logged at acknowledgement, synced at Sync acknowledgement, caller's batch unchanged; SetReadOnly among the writers; journal failures among the writers; Close with a transaction left open"),
  "C12": ("fault_enumeration", "§6 C12", "journal writer/reader over simulated files: intact round trip; every truncation offset and byte damage for small journals (seeded sample for large); strict and tolerant reader oracles; zero/constant contents and the rule that a yielded record lies within the truncated stream; Reader reused through Reset; Writer.Reset with buffered records"),
  "C13": ("fault_enumeration", "§6 C13", "table writer/reader round trip under all layout knobs, then single-byte alterations in checksummed blocks: results are original pairs or errors; lookups through the filter find every stored key"),
  "C14": ("exploration", "§6 C14", "memdb at statement-level preemption: one writer + readers/iterators under the seeded scheduler; model equality sequentially, ordering/provenance/no-panic concurrently; handed-out slices stay unchanged until Reset"),
